@@ -2818,6 +2818,112 @@ fn core_word_name(xs: &mut State) -> Xresult {
     xs.push_data(Cell::from(s))
 }
 
+/// Read-only snapshot of the machine state, only built with the `verif_hooks` feature.
+#[cfg(feature = "verif_hooks")]
+#[derive(Clone, Debug, Default)]
+pub struct VerifDump {
+    pub ip: usize,
+    /// data stack items below the current context's stack base
+    pub data_hidden: Vec<Cell>,
+    /// data stack items visible to the current context
+    pub data_visible: Vec<Cell>,
+    /// (fn_addr, return_to, locals) per frame, bottom first
+    pub frames: Vec<(usize, usize, Vec<Cell>)>,
+    /// (iterated collection, range start, range end) per loop record, outermost first
+    pub loops: Vec<(Cell, isize, isize)>,
+    /// vector-builder marks
+    pub special: Vec<usize>,
+    pub heap: Vec<Cell>,
+    pub mode: &'static str,
+    pub nested: usize,
+    pub flow_len: usize,
+    /// unread byte count of every pending input source, bottom first
+    pub input_unread: Vec<usize>,
+    pub dict_len: usize,
+    pub code_len: usize,
+    pub debug_map_len: usize,
+    pub sources_len: usize,
+    pub insn_meter: usize,
+    pub reverse_log_len: Option<usize>,
+    /// context marks: (ds_len, cs_len, rs_len, fs_len, ls_len, ss_ptr, di_len)
+    pub ctx_marks: [usize; 7],
+}
+
+#[cfg(feature = "verif_hooks")]
+impl State {
+    pub fn verif_dump(&self) -> VerifDump {
+        let base = self.ctx.ds_len.min(self.data_stack.len());
+        VerifDump {
+            ip: self.ctx.ip,
+            data_hidden: self.data_stack[..base].to_vec(),
+            data_visible: self.data_stack[base..].to_vec(),
+            frames: self
+                .return_stack
+                .iter()
+                .map(|f| (f.fn_addr, f.return_to, f.locals.iter().cloned().collect()))
+                .collect(),
+            loops: self
+                .loops
+                .iter()
+                .map(|l| (l.items.clone(), l.range.start, l.range.end))
+                .collect(),
+            special: self
+                .special
+                .iter()
+                .map(|s| match s {
+                    Special::VecStackStart(p) => *p,
+                })
+                .collect(),
+            heap: self.heap.clone(),
+            mode: match self.ctx.mode {
+                ContextMode::Compile => "compile",
+                ContextMode::Eval => "eval",
+                ContextMode::MetaEval => "meta",
+            },
+            nested: self.nested.len(),
+            flow_len: self.flow_stack.len(),
+            input_unread: self.input.iter().map(|l| l.verif_unread()).collect(),
+            dict_len: self.dict.len(),
+            code_len: self.code.len(),
+            debug_map_len: self.debug_map.len(),
+            sources_len: self.sources.len(),
+            insn_meter: self.insn_meter,
+            reverse_log_len: self.reverse_log.as_ref().map(|l| l.len()),
+            ctx_marks: [
+                self.ctx.ds_len,
+                self.ctx.cs_len,
+                self.ctx.rs_len,
+                self.ctx.fs_len,
+                self.ctx.ls_len,
+                self.ctx.ss_ptr,
+                self.ctx.di_len,
+            ],
+        }
+    }
+
+    /// (name, kind) of every dictionary entry, oldest first
+    pub fn verif_dict(&self) -> Vec<(Xstr, &'static str)> {
+        self.dict
+            .iter()
+            .map(|e| {
+                let kind = match &e.entry {
+                    Entry::Constant(_) => "const",
+                    Entry::Variable(_) => "var",
+                    Entry::Function { immediate: true, .. } => "immediate",
+                    Entry::Function { xf: Xfn::Native(_), .. } => "native",
+                    Entry::Function { xf: Xfn::Interp(_), .. } => "word",
+                };
+                (e.name.clone(), kind)
+            })
+            .collect()
+    }
+
+    /// source text of the token recorded for the bytecode cell at `at`
+    pub fn verif_debug_token(&self, at: usize) -> Option<Xsubstr> {
+        self.debug_map.get(at).cloned()
+    }
+}
+
 #[cfg(test)]
 mod tests {
     use super::*;
